@@ -6,7 +6,7 @@
     fen <FEN>                      -> ok | err | panic          (position of all later requests)
     valid                          -> 2 bits: Board.valid, Rules.epNormal
     see <m> <t1,t2,…>              -> <bits of Model.See.see per threshold> <Spec.seeValue> <model caps> <spec caps>
-    new                            -> ok                        (NewMoveRanker)
+    new | clear                    -> ok                        (NewMoveRanker() | Clear())
     stack <piece:to:score,…|->     -> ok                        (history stack, TOP FIRST)
     fh <n> <d> <m:w,m:w,…>         -> ok                        (n × FailHigh(d, board, moves, stack))
     rank <m>                       -> <RankNoisy> <RankQuiet>
@@ -79,6 +79,7 @@ def step (st : DS) (line : String) : DS × String :=
     let bits := String.join ((thrs.splitOn ",").map fun t => bstr (See.see b m (parseInt t)))
     (st, s!"{bits} {SeeSpec.seeValue b m} {capsStr (See.capsOf b m)} {capsStr (SeeSpec.capsOf b m)}")
   | ["new"] => ({ st with ranker := Heur.Ranker.new }, "ok")
+  | ["clear"] => ({ st with ranker := st.ranker.clear }, "ok")
   | ["stack", s] => ({ st with stack := parseStack s }, "ok")
   | ["fh", n, d, ms] =>
     ({ st with ranker := repeatFH st.ranker (parseInt d) b (parsePairs ms) st.stack n.toNat! }, "ok")
